@@ -10,6 +10,7 @@ import (
 	"errors"
 	"fmt"
 	"net/http"
+	"net/http/httptest"
 	"net/url"
 	"sort"
 	"strings"
@@ -1250,6 +1251,7 @@ func driveC14(t *testing.T, out *vEmitter) {
 	}
 	vC14GenericProvider(t, out)
 	vC14EmptyEmailProviders(t, out)
+	vC14PartialRefresh(t, out)
 	// model correspondence for the three paths under provider-side faults (token absent / profile failing)
 	vC14ModelCases(t, out)
 }
@@ -1475,6 +1477,79 @@ func vC14GenericProvider(t *testing.T, out *vEmitter) {
 		}
 	}
 	setAccount(kinds[0])
+}
+
+// vC14PartialRefresh: a refresh answer that is well-formed as far as the OAuth2 exchange goes but carries an access token
+// the provider cannot read (Keycloak-OIDC takes the roles from it): the provider reports an error, and whatever it had
+// already copied into the session, the stored session is not extended from that answer - nothing is written back with a
+// fresh creation time, no fresh cookie is issued.
+func vC14PartialRefresh(t *testing.T, out *vEmitter) {
+	vKeys()
+	for _, redis := range []bool{true, false} {
+		for _, bad := range []string{"opaque-not-a-jwt", "a.b", "e30.e30.", "ok"} {
+			redis, bad := redis, bad
+			e := vTryNewEnv(t, vEnvCfg{oidc: true, redis: redis, mod: func(o *options.Options) {
+				o.Providers[0].Type = options.KeycloakOIDCProvider
+				o.Providers[0].OIDCConfig.InsecureSkipNonce = true
+				o.Cookie.Refresh = time.Hour
+			}})
+			if e == nil {
+				out.Stat("c14_partial_refresh_config_rejected", 1)
+				continue
+			}
+			b := e.newBrowser("https://app.example.com")
+			s := b.seedSession("user@example.com", 2*time.Hour, 20)
+			s.AccessToken = vJWT(vKeyRSA, "RS256", vClaims("user@example.com", nil))
+			vReseed(b, s)
+			issuedBefore := *s.CreatedAt
+			access := bad
+			if bad == "ok" {
+				access = vJWT(vKeyRSA, "RS256", vClaims("user@example.com", nil))
+			}
+			e.idp.onToken = func(url.Values) (int, string, string, error) {
+				return 200, "application/json", vTokenJSON(vJWT(vKeyRSA, "RS256", vClaims("user@example.com", nil)), access, "rt-new", 3600), nil
+			}
+			if e.redis != nil {
+				e.redis.ResetOps()
+			}
+			r := b.get("/page")
+			wrote := false
+			if e.redis != nil {
+				for _, op := range e.redis.Ops() {
+					if op.Kind == "set" {
+						wrote = true
+					}
+				}
+			}
+			fresh := false
+			for _, c := range r.Cookies {
+				if (c.Name == e.opts.Cookie.Name || strings.HasPrefix(c.Name, e.opts.Cookie.Name+"_")) && c.MaxAge > 0 {
+					fresh = true
+				}
+			}
+			rq := httptest.NewRequest("GET", "https://app.example.com/", nil)
+			rq.Header.Set("Cookie", b.cookieHeader("/"))
+			restamped := false
+			if got, err := e.p.sessionStore.Load(rq); err == nil && got != nil && got.CreatedAt != nil {
+				restamped = got.CreatedAt.After(issuedBefore.Add(time.Minute))
+			}
+			out.Obs("idp-fault/partial-refresh", true, vL("idp_fault", vS("keycloak-oidc-refresh"), vS("token"), vS(bad), vI(int64(r.Status)), vBool(wrote || fresh || restamped), vBool(r.Hit())))
+			out.Stat("idp_fault_runs", 1)
+			out.Stat("c14_partial_refresh_runs", 1)
+			if r.Panic != nil {
+				out.Violation("idp-fault/panic", fmt.Sprintf("request handling panicked on an identity-provider answer: %v", r.Panic), map[string]interface{}{"flow": "refresh", "kind": bad})
+				continue
+			}
+			extended := wrote || fresh || restamped
+			if bad != "ok" && extended {
+				out.Violation("idp-fault/session-extended-from-malformed-refresh", "a stored session was extended (written back, re-stamped or given a fresh cookie) from a refresh answer the provider reported as malformed",
+					map[string]interface{}{"provider": "keycloak-oidc", "access_token_in_refresh_answer": bad, "redis": redis, "store_written": wrote, "fresh_cookie": fresh, "created_at_moved": restamped, "status": r.Status})
+			}
+			if bad == "ok" && !extended {
+				out.Violation("control/well-formed-refresh-not-persisted", "a well-formed refresh answer did not extend the session: the check above checks nothing", map[string]interface{}{"redis": redis, "status": r.Status})
+			}
+		}
+	}
 }
 
 // vC14EmptyEmailProviders: providers that report "the profile answer held no usable e-mail" by leaving the session's e-mail
